@@ -1,6 +1,10 @@
+mod cli;
 mod db;
+mod fsws;
 mod gen;
 mod hist;
+mod lsp;
+mod lspdiff;
 mod model;
 mod props;
 mod render;
